@@ -239,9 +239,32 @@ def _const_arg(prog, body, x, penv):
             vals.add(("variant", oo.data["variant"]))
         elif oo.kind == "param" and not oo.fields and (penv or {}).get(oo.data) is not None:
             vals.add(penv[oo.data])
+        elif oo.kind == "upvar" and not oo.fields and (penv or {}).get(("up", oo.data)) is not None:
+            vals.add(penv[("up", oo.data)])
         else:
             return None
     return next(iter(vals)) if len(vals) == 1 else None
+
+
+def _closure_env(prog, body, cb, penv):
+    """constants a closure created in `body` captures: {("up", field): True | False | ('variant', name)} for the captured variables
+    that are constants in `body` (or parameters of `body` fixed by penv)"""
+    env = {}
+    if cb is None or cb.kind != "closure":
+        return env
+    from .tags import _closure_capture_operand
+
+    for u in cb.upvars or []:
+        try:
+            par, cop = _closure_capture_operand(prog, cb, u["field"])
+        except Exception:
+            continue
+        if par is not body or cop is None:
+            continue
+        kv = _const_arg(prog, body, cop, penv)
+        if kv is not None:
+            env[("up", u["field"])] = kv
+    return env
 
 
 def _ty_kind(ty):
@@ -508,7 +531,7 @@ def shapes_of(prog, body, op, site=None, stack=(), depth=0, penv=None):
                         cb = prog.by_target[body.target].get(fa) or prog.by_target["lib"].get(fa)
                         if cb is not None:
                             got = True
-                            for y in return_shapes(prog, cb, stack + (body.id,)):
+                            for y in return_shapes(prog, cb, stack + (body.id,), _closure_env(prog, body, cb, penv)):
                                 if isinstance(y, tuple) and y[0] == "Some":
                                     out.add(project(y, o.fields))
                                 elif y != "None":
@@ -565,10 +588,20 @@ def _restrict(prog, body, origin, shapes, site):
         return shapes
     res_local = origin.site.node["dst"]["l"]
     keep = set(shapes)
+    # `let (answer, ids) = call(..); match ids { .. }`: a local that is one component of the result moved out of it
+    moved = {}
+    for l, ds in body.defs.items():
+        if len(ds) == 1 and ds[0].si is not None and ds[0].node["k"] == "assign" and ds[0].node["rv"]["k"] == "use":
+            q = op_place(ds[0].node["rv"]["ops"][0])
+            if q is not None and q["l"] == res_local and q["p"] and all(isinstance(e, dict) and "f" in e for e in q["p"]):
+                moved[l] = [str(f) for f in place_fields(q)]
     for c in conditions(body, site.bb):
-        if c.place["l"] != res_local:
+        if c.place["l"] in moved and c.place["l"] != res_local:
+            flds = moved[c.place["l"]] + [str(f) for f in place_fields(c.place)]
+        elif c.place["l"] != res_local:
             continue
-        flds = [str(f) for f in place_fields(c.place)]
+        else:
+            flds = [str(f) for f in place_fields(c.place)]
         new = set()
         for s in keep:
             comp = project(s, flds)
